@@ -83,7 +83,7 @@ func Load(repoDir string, patterns []string, overlay map[string][]byte) (*Engine
 	if len(errs) > 0 {
 		return nil, fmt.Errorf("package errors: %s", strings.Join(errs, "; "))
 	}
-	prog, spkgs := ssautil.AllPackages(pkgs, ssa.InstantiateGenerics)
+	prog, spkgs := ssautil.AllPackages(pkgs, ssa.InstantiateGenerics|ssa.GlobalDebug)
 	prog.Build()
 	e := &Engine{
 		RepoDir: repoDir, Fset: pkgs[0].Fset, Pkgs: pkgs, Prog: prog, SSAPkgs: spkgs,
